@@ -189,7 +189,8 @@ def gen_case(rng, tier, allow_dups):
     nnames = rng.choice([1, 1, 2, 2, 3])
     names = rng.sample(NAMES, nnames)
     ndefs = rng.randrange(2, 9)
-    port_pool = rng.choice([[1, 2], [1, 2, 3], [7, 300, 511], [1]])
+    # 0 is a valid port-ID (and falsy in Python); 511 / 8191 are the largest service / subject identifiers
+    port_pool = rng.choice([[1, 2], [0, 1], [0, 7, 511], [0], [1, 2, 3], [7, 300, 511], [0, 8191], [511, 8191], [1]])
     base = {}
     for n in names:
         k = "s" if rng.random() < 0.3 else "m"
@@ -216,6 +217,8 @@ def gen_case(rng, tier, allow_dups):
         for si in range(2 if k == "s" else 1):
             bl = b["lays"][si] if si < len(b["lays"]) else gen_lay(rng)
             lays.append(list(bl) if rng.random() >= noise else perturb_lay(rng, bl))
+        if p is not None and k == "s" and p > 511:
+            p = 511       # the largest valid service-ID
         d = {"n": n, "mj": mj, "mn": mn, "k": k, "p": p, "lays": lays, "place": "t" if rng.random() < 0.65 else "l",
              "target": rng.random() < 0.7, "refs": [], "ext": "dsdl" if rng.random() < 0.9 else "uavcan"}
         dup = any(key(o) == key(d) for o in defs)
@@ -261,9 +264,13 @@ def grid():
     for same_name in (True, False):
         for mja, mjb in [(0, 0), (0, 1), (1, 0), (1, 1), (1, 2)]:
             for mna, mnb in [(1, 2), (2, 1), (1, 1)]:
-                for pa, pb in [(None, None), (None, 1), (1, None), (1, 1), (1, 2)]:
+                for pa, pb in [(None, None), (None, 1), (1, None), (1, 1), (1, 2),
+                               (0, None), (None, 0), (0, 0), (0, 7), (7, 0), (511, None), (None, 511), (511, 511), (511, 0),
+                               (8191, None), (8191, 8191), (8191, 0), (0, 8191)]:
                     for ka in "ms":
                         for kb in "ms":
+                            if (ka == "s" and (pa or 0) > 511) or (kb == "s" and (pb or 0) > 511):
+                                continue      # not a valid service-ID: rejected for another reason
                             if ka == "s" and kb == "s":
                                 lps = [([x, S8], [y, S8]) for x, y in LAY_PAIRS] + [([D8, x], [D8, y]) for x, y in LAY_PAIRS[1:]]
                             else:
@@ -301,6 +308,14 @@ def corpus():
     # the scenario of the upstream test: port added in a newer minor is fine, removed is not
     out.append({"mode": "ns", "defs": [mkdef("Alpha", 1, 0, "m", None, [list(S8)]), mkdef("Alpha", 1, 1, "m", 7, [list(S8)])]})
     out.append({"mode": "ns", "defs": [mkdef("Alpha", 1, 0, "m", 7, [list(S8)]), mkdef("Alpha", 1, 1, "m", None, [list(S8)])]})
+    # port-ID 0 is a port-ID: it cannot be removed or changed either, and it collides like any other (seeded C11-2)
+    out.append({"mode": "ns", "defs": [mkdef("Alpha", 1, 0, "m", 0, [list(S8)]), mkdef("Alpha", 1, 1, "m", None, [list(S8)])]})
+    out.append({"mode": "ns", "defs": [mkdef("Alpha", 1, 0, "m", 0, [list(S8)]), mkdef("Alpha", 1, 1, "m", 7, [list(S8)])]})
+    out.append({"mode": "ns", "defs": [mkdef("Alpha", 1, 0, "m", None, [list(S8)]), mkdef("Alpha", 1, 1, "m", 0, [list(S8)])]})
+    out.append({"mode": "ns", "defs": [mkdef("Alpha", 1, 1, "s", 0, [list(S8), list(S8)]), mkdef("Alpha", 1, 0, "s", 0, [list(S8), list(S8)])]})
+    out.append({"mode": "ns", "defs": [mkdef("Alpha", 1, 0, "s", 0, [list(S8), list(S8)]), mkdef("Alpha", 1, 2, "s", 511, [list(S8), list(S8)])]})
+    out.append({"mode": "ns", "defs": [mkdef("Alpha", 1, 0, "m", 0, [list(S8)]), mkdef("Bravo", 1, 0, "m", 0, [list(S8)])]})
+    out.append({"mode": "ns", "defs": [mkdef("Alpha", 1, 0, "m", 8191, [list(S8)]), mkdef("Alpha", 1, 1, "m", None, [list(S8)])]})
     # major 0 exemption of the collision rule, and its limits
     out.append({"mode": "ns", "defs": [mkdef("Alpha", 0, 1, "m", 7, [list(S8)]), mkdef("Alpha", 1, 0, "m", 7, [list(S16)])]})
     out.append({"mode": "ns", "defs": [mkdef("Alpha", 0, 1, "m", 7, [list(S8)]), mkdef("Bravo", 0, 1, "m", 7, [list(S8)])]})
@@ -326,7 +341,7 @@ def generate(rng, tier):
     streams = ["corpus"] * len(cases)
     g = grid()
     if tier == "quick":
-        g = rng.sample(g, 1500)
+        g = rng.sample(g, 2500)
     cases += g
     streams += ["targeted"] * len(g)
     n = 2500 if tier == "quick" else 30000
@@ -466,6 +481,10 @@ def describe(case, obs):
     keys = ["mode=" + case["mode"], "defs=%d" % len(case["defs"]), "read:direct=%d" % len(d), "read:transitive=%d" % min(len(t), 4),
             "impl:" + obs["r"], "names=%d" % len({x["n"] for x in case["defs"]})]
     keys += ["violates:" + r for r in sorted(rs)] or ["conforming"]
+    if any(x["p"] == 0 for x in t + d):
+        keys.append("has-port-0")
+    if any(x["p"] in (511, 8191) for x in t + d):
+        keys.append("has-port-maximum")
     if any(x["mj"] == 0 for x in t + d):
         keys.append("has-major-0")
     if any(x["k"] == "s" for x in t + d):
